@@ -17,9 +17,10 @@ import (
 // stdout/stderr (the shim forwards to them after fault checks, so output of
 // uninstrumented libraries such as cobra interleaves correctly).
 func Run(main func()) {
-	debug.SetMaxStack(64 << 20)
-	debug.SetMemoryLimit(1 << 30)
-	_ = syscall.Setrlimit(syscall.RLIMIT_AS, &syscall.Rlimit{Cur: 8 << 30, Max: 8 << 30})
+	debug.SetMaxStack(8 << 20) // runaway recursion becomes a fast "stack overflow" crash (the shipped default is 1 GB)
+	// runaway allocation becomes a fast "out of memory" crash instead of eating the host
+	// (the cooperative heap check in tick() normally fires first; this is the backstop)
+	_ = syscall.Setrlimit(syscall.RLIMIT_AS, &syscall.Rlimit{Cur: 3 << 30, Max: 3 << 30})
 	raw, err := io.ReadAll(os.Stdin)
 	if err != nil {
 		fmt.Fprintln(os.Stderr, "simrt: cannot read spec:", err)
@@ -56,6 +57,7 @@ func finish(code int, returned bool) {
 	w.res.Exit = code
 	w.res.Returned = returned
 	w.res.Steps = w.steps
+	w.res.Ticks = w.ticks
 	w.res.FS = w.snapshot()
 	for i, f := range w.spec.Faults {
 		if !w.fired[i] {
